@@ -23,6 +23,7 @@ import (
 	"github.com/buchgr/bazel-remote/v2/utils/sha256verifier"
 	"github.com/buchgr/bazel-remote/v2/utils/tempfile"
 	"github.com/buchgr/bazel-remote/v2/utils/validate"
+	"github.com/buchgr/bazel-remote/v2/utils/verifhook"
 
 	"github.com/djherbis/atime"
 
@@ -347,6 +348,7 @@ func (c *diskCache) Put(ctx context.Context, kind cache.EntryKind, hash string, 
 		}
 	}
 
+	verifhook.At("put.commit")
 	unreserve, removeTempfile, err = c.commit(key, legacy, blobFile, size, size, sizeOnDisk, random)
 	if err != nil {
 		return internalErr(err)
@@ -463,6 +465,7 @@ func (c *diskCache) availableOrTryProxy(kind cache.EntryKind, hash string, size 
 		if !isSizeMismatch(size, item.size) {
 			var f *os.File
 			fastPath := true
+			verifhook.At("get.open")
 			f, err = os.Open(blobPath)
 			if err != nil && os.IsNotExist(err) {
 				// Another request replaced the file before we could open it?
@@ -509,6 +512,7 @@ func (c *diskCache) availableOrTryProxy(kind cache.EntryKind, hash string, size 
 						blobPath, zstd, item.legacy, err)
 					_ = f.Close()
 
+					verifhook.At("get.drop")
 					c.mu.Lock()
 					// Only remove the entry that we failed to read: since the lock
 					// was released another request may have removed or replaced it.
@@ -749,6 +753,7 @@ func (c *diskCache) get(ctx context.Context, kind cache.EntryKind, hash string, 
 		return nil, -1, internalErr(err)
 	}
 
+	verifhook.At("get.commit")
 	unreserve, removeTempfile, err = c.commit(key, legacy, blobFile, size, foundSize, sizeOnDisk, random)
 	if err != nil {
 		_ = rc.Close()
